@@ -14,7 +14,7 @@ from ..rng import digest
 from .. import observe as ob
 
 PROP = "C15"
-RUNS = {"quick": 4000, "thorough": 300000}
+RUNS = {"quick": 4000, "thorough": 500000}
 WALL = {"quick": 280, "thorough": 3500}
 RULE = ("one run = GFA1 graph with count tags + scheduled delivery + one multiply call (factor, policy, "
         "names); post-state checked; distinct = distinct (neighbourhood digest, factor, policy) tuples")
